@@ -62,6 +62,9 @@ class _CommentClaimer(Generic[_M]):
         self._model = model
         self._comments_to_claim = (
             {id(comment) for comment in comments} if comments is not None else _Universe())
+        # Comments named by the caller are looked for beyond the owner's span too: when the list ends its owner (a posting,
+        # an entry built without a dedent mark), a comment released from the end of the list lies right behind both.
+        self._explicit = comments is not None
 
     def _find_inner(self) -> Iterator[_M | BlockComment]:
         token_store = self._repeated.token_store
@@ -94,7 +97,7 @@ class _CommentClaimer(Generic[_M]):
             limit: base.RawTokenModel,
     ) -> Iterator[BlockComment]:
         prev, token = start, succ(start)
-        while prev is not limit and token is not None:
+        while (prev is not limit or self._explicit) and token is not None:
             if isinstance(token, Newline | Whitespace) or not token.raw_text:
                 pass
             elif isinstance(token, BlockComment):
